@@ -1,8 +1,11 @@
 (* C04 - wait/terminate are bounded, truthful, idempotent - even on unresponsive children.
+   The bodies of ThreadWorker.wait/terminate and ProcessWorker.wait/terminate are REGENERATED from the source on every run
+   (Gen/Ctrl.v: which blocking primitive is called with which bound, in which order, under which condition) and interpreted by
    Model: Ctrl/Model.v (parent-side control logic of thread, process and persistent process
    workers against a child of any class: cooperative, swallowing every Exception, blocked in a
    long C call, holding the interpreter lock, SIGSTOPped). *)
 From PW Require Import Ctrl.Model Ctrl.Proofs.
+From PW Require Gen.Ctrl.
 
 (* (a) every call issues at most four blocking primitives (poll for the acknowledgement, join,
    join after SIGTERM, join after SIGKILL), each bounded by the caller's timeout whenever that
@@ -43,6 +46,27 @@ Theorem C04_force_terminate_kills :
   forall k s t, is_process_kind k = true -> consistent s -> alive (fst (step k s (Terminate t true))) = false.
 Proof. exact terminate_force_kills. Qed.
 
+(* the regressions the generated instruction lists rule out, as theorems about the other shapes *)
+Theorem C04_refuted_if_the_acknowledgement_wait_is_unbounded :
+  exists c, In (BPoll TInf)
+               (log (interp KProcess TFin true
+                            [CPutTerminate; CAck false; CRelease; CJoin true; CIfAlive [CIfForce [CSigterm; CJoin true; CIfAlive [CSigkill; CJoin true]]]]
+                            (fresh c))).
+Proof. exists GilHeld. vm_compute. left. reflexivity. Qed.
+
+Theorem C04_refuted_without_the_sigkill_escalation :
+  exists c, alive (interp KProcess TFin true
+                          [CPutTerminate; CAck true; CRelease; CJoin true; CIfAlive [CIfForce [CSigterm; CJoin true]]]
+                          (fresh c)) = true.
+Proof. exists Stopped. vm_compute. reflexivity. Qed.
+
+Example C04_generated_instruction_lists :
+  Gen.Ctrl.gen_process_terminate
+  = [CPutTerminate; CAck true; CRelease; CJoin true; CIfAlive [CIfForce [CSigterm; CJoin true; CIfAlive [CSigkill; CJoin true]]]]
+  /\ Gen.Ctrl.gen_thread_terminate = [CRaise; CRelease; CJoin true; CIfAlive [CIfForce [CSelfSigterm]]]
+  /\ Gen.Ctrl.gen_process_wait = [CEarlyResult; CJoin true] /\ Gen.Ctrl.gen_thread_wait = [CJoin true].
+Proof. repeat split; reflexivity. Qed.
+
 Example C04_example_stopped_child :
   run KProcess (fresh Stopped) [Wait TFin; Terminate TFin false; Terminate TFin true; Wait TFin]
   = (mkPw true true false Stopped false
@@ -55,3 +79,5 @@ Print Assumptions C04_truthful.
 Print Assumptions C04_history_invariant.
 Print Assumptions C04_idempotent_when_dead.
 Print Assumptions C04_force_terminate_kills.
+Print Assumptions C04_refuted_if_the_acknowledgement_wait_is_unbounded.
+Print Assumptions C04_refuted_without_the_sigkill_escalation.
